@@ -715,6 +715,11 @@ func (i *Interp) materialize(p *place) *Loc {
 			i.set(ploc, NewObj())
 		}
 	default:
+		if par.tmp.K == KNull {
+			// a null that is a value (a call's result, a literal, pop() of an empty
+			// array) and not a missing place: nothing can be created below it
+			rt("could not create this object")
+		}
 		un("store into a temporary value")
 	}
 	cv := ploc.V
